@@ -373,6 +373,13 @@ def pinned_traces(tier):
         evs += [dict(base, op="c15.add", img=A, existing=k_, src={"via": "stream", "pos": 0}) for k_ in range(3)]
         evs += [{"op": "checkpoint", "sink": "seekable"}, {"op": "restart"}]
         out.append({"property": ID, "seed": "image-held-by-a-layout-%s" % dk, "tier": "pinned", "config": {"pinned": True}, "start": [{"deck": dk}], "events": evs})
+    # one buffer object refilled and passed again and again
+    evs = [{"op": "add_slide", "layout": 6}]
+    for k in range(6):
+        evs.append(dict(base, op="c15.add", img={"fmt": ("PNG", "JPEG", "PNG", "GIF", "PNG", "BMP")[k], "w": 4 + k % 2, "h": 3, "seed": 120 + k // 2, "mode": "RGB", "dpi": None},
+                        src={"via": "buffer", "pos": 0}, how=("picture", "picture", "placeholder", "picture", "icon", "poster")[k]))
+    evs += [{"op": "checkpoint", "sink": "seekable"}, {"op": "restart"}]
+    out.append({"property": ID, "seed": "one-buffer-refilled", "tier": "pinned", "config": {"pinned": True}, "start": [{"deck": "default"}], "events": evs})
     # a template with a logo on a layout no slide uses (layout_logo): new image, the layout removed, another new image, the logo's bytes again
     for k_ in (10, 3):
         evs = [{"op": "add_slide", "layout": 0},
